@@ -675,6 +675,15 @@ func corpus() []*Case {
 			{K: "cnode", H: 1, T: 1}, {K: "csql", H: 1}, {K: "cdb", DB: 1, HasRP: true, RP: 1, D: i64(0), SGD: i64(Hour)},
 			{K: "csql", H: 1}, {K: "csql", H: 1}, {K: "cuser", S1: "u1", S2: "h"},
 		}),
+		// a choice site: DropSubscription with an empty policy name drops the subscription from whichever policy the map
+		// iteration reaches first
+		scripted("map-order-dropsubscription", 1, 7, 0, []Cmd{
+			{K: "cnode", H: 1, T: 1}, {K: "cdb", DB: 1, HasRP: true, RP: 1, D: i64(0), SGD: i64(Hour)},
+			{K: "crp", DB: 1, RP: 2, D: i64(0), SGD: i64(Hour)}, {K: "crp", DB: 1, RP: 3, D: i64(0), SGD: i64(Hour)},
+			{K: "csub", DB: 1, RP: 1, S1: "sub0", S2: "ALL", H: 1}, {K: "csub", DB: 1, RP: 2, S1: "sub0", S2: "ALL", H: 1},
+			{K: "csub", DB: 1, RP: 3, S1: "sub0", S2: "ALL", H: 1},
+			{K: "dsub", DB: 1, RP: 0, S1: "sub0"}, {K: "dsub", DB: 1, RP: 0, S1: "sub0"},
+		}),
 		scripted("delayed-persist-subscriptions", 1, 5, 2, []Cmd{
 			{K: "cnode", H: 1, T: 1}, {K: "cdb", DB: 1, HasRP: true, RP: 1, D: i64(0), SGD: i64(Hour)},
 			{K: "csub", DB: 1, RP: 1, S1: "sub0", S2: "ALL", H: 1}, {K: "csub", DB: 1, RP: 1, S1: "sub1", S2: "ALL", H: 2},
@@ -684,11 +693,48 @@ func corpus() []*Case {
 	}
 }
 
+// reflFields lists, by reflection over the compiled structs, the fields of every struct type of the meta package reachable
+// from meta.Data: the translator's reading of the source is cross-checked against it.
+func reflFields() map[string][]string {
+	out := map[string][]string{}
+	var walk func(t reflect.Type)
+	walk = func(t reflect.Type) {
+		switch t.Kind() {
+		case reflect.Ptr, reflect.Slice, reflect.Array:
+			walk(t.Elem())
+		case reflect.Map:
+			walk(t.Elem())
+		case reflect.Struct:
+			if !strings.HasSuffix(t.PkgPath(), "lib/util/lifted/influx/meta") {
+				return
+			}
+			if _, ok := out[t.Name()]; ok {
+				return
+			}
+			fs := []string{}
+			out[t.Name()] = fs
+			for i := 0; i < t.NumField(); i++ {
+				fs = append(fs, t.Field(i).Name)
+			}
+			out[t.Name()] = fs
+			for i := 0; i < t.NumField(); i++ {
+				walk(t.Field(i).Type)
+			}
+		}
+	}
+	walk(reflect.TypeOf(meta2.Data{}))
+	return out
+}
+
 func main() {
 	meta2.DataLogger = zap.NewNop()
 	out := bufio.NewWriterSize(os.Stdout, 1<<20)
 	defer out.Flush()
 	enc := json.NewEncoder(out)
+	if len(os.Args) > 1 && os.Args[1] == "fields" {
+		_ = enc.Encode(map[string]any{"refl_fields": reflFields()})
+		return
+	}
 	if len(os.Args) > 2 && os.Args[1] == "replay" {
 		b, err := os.ReadFile(os.Args[2])
 		if err != nil {
@@ -717,8 +763,13 @@ func main() {
 	if len(os.Args) > 1 {
 		n, _ = strconv.Atoi(os.Args[1])
 	}
-	for _, c := range corpus() {
-		_ = enc.Encode(c)
+	for rep := 0; rep < 6; rep++ {
+		for _, c := range corpus() {
+			if rep > 0 {
+				c.Name = fmt.Sprintf("%s#%d", c.Name, rep)
+			}
+			_ = enc.Encode(c)
+		}
 	}
 	r := gen.FromEnv(15)
 	for i := 0; i < n; i++ {
